@@ -13,7 +13,7 @@ use nom::{
     branch::alt,
     bytes::complete::{tag, take_until},
     character::complete::{char, multispace1},
-    combinator::{into, map, opt, recognize, verify},
+    combinator::{all_consuming, consumed, eof, into, map, opt, recognize, verify},
     multi::{many0, many1},
     sequence::{delimited, pair, preceded, terminated},
     Parser,
@@ -93,22 +93,58 @@ pub(crate) fn asn_module(
     pair(
         module_header::module_header,
         terminated(
-            many0(skip_ws(alt((
-                map(object_class_assignement, ToplevelDefinition::Class),
-                map(
-                    top_level_information_declaration,
-                    ToplevelDefinition::Object,
-                ),
-                map(top_level_type_declaration, ToplevelDefinition::Type),
-                map(top_level_value_declaration, ToplevelDefinition::Value),
-                map(macro_definition, |m| {
-                    ToplevelDefinition::Macro(ToplevelMacroDefinition::from(m))
-                }),
-            )))),
+            map(
+                many0(skip_ws(consumed(alt((
+                    map(object_class_assignement, ToplevelDefinition::Class),
+                    map(
+                        top_level_information_declaration,
+                        ToplevelDefinition::Object,
+                    ),
+                    map(top_level_type_declaration, ToplevelDefinition::Type),
+                    map(top_level_value_declaration, ToplevelDefinition::Value),
+                    map(macro_definition, |m| {
+                        ToplevelDefinition::Macro(ToplevelMacroDefinition::from(m))
+                    }),
+                ))))),
+                values_of_uppercase_types,
+            ),
             context_boundary(skip_ws_and_comments(alt((end, encoding_control)))),
         ),
     )
     .parse(input)
+}
+
+/// A type reference without lower-case letters, such as `PDU`, is lexically
+/// indistinguishable from an object class reference, which makes `pdu PDU ::= { id 1 }`
+/// look like an information object assignment. Once all assignments of a module are known,
+/// "information objects" whose governing class is one of the module's types are
+/// re-read as what they are: value assignments.
+fn values_of_uppercase_types(
+    definitions: Vec<(Input<'_>, ToplevelDefinition)>,
+) -> Vec<ToplevelDefinition> {
+    let types = definitions
+        .iter()
+        .filter_map(|(_, tld)| match tld {
+            ToplevelDefinition::Type(t) => Some(t.name.clone()),
+            _ => None,
+        })
+        .collect::<Vec<_>>();
+    definitions
+        .into_iter()
+        .map(|(source, tld)| match tld {
+            ToplevelDefinition::Object(ToplevelInformationDefinition {
+                class: ClassLink::ByName(ref class),
+                value: ASN1Information::Object(_),
+                ..
+            }) if types.contains(class) => all_consuming(skip_ws_and_comments(terminated(
+                top_level_value_declaration,
+                skip_ws_and_comments(eof),
+            )))
+            .parse(source)
+            .map_or(tld, |(_, value)| ToplevelDefinition::Value(value)),
+            _ => tld,
+        })
+        .collect()
 }
 
 fn encoding_control(input: Input<'_>) -> ParserResult<'_, &str> {
